@@ -65,6 +65,7 @@ type Ctx struct {
 	asserted    map[*Term]bool
 	usedGhost   bool
 	tainted     map[string]bool
+	guardType   string
 	secretMemo  map[*Term]bool
 	nInstr      int64
 }
@@ -664,7 +665,7 @@ func (c *Ctx) mergeTwo(a, b *Path, live map[ssa.Value]bool) *Path {
 			return nil
 		}
 	}
-	return &Path{st: &State{mem: mem, pc: pc, ghost: ghost}, env: env, defers: a.defers}
+	return &Path{st: &State{mem: mem, pc: pc, ghost: ghost, shared: a.st.shared}, env: env, defers: a.defers}
 }
 
 // transfer moves a path along the edge from -> to (k-th successor), assigning phis.
@@ -793,6 +794,7 @@ func (c *Ctx) runBlock(fr *frame, p *Path, blk *ssa.BasicBlock, start int) {
 				c.recordPanic(st, in, "nil pointer dereference")
 				return
 			}
+			c.checkGuarded(st, in, base)
 			p.env[in] = base.child(PathElem{Idx: in.Field})
 		case *ssa.Field:
 			p.env[in] = c.eval(p, in.X).(*StructV).F[in.Field]
@@ -1070,7 +1072,7 @@ func (c *Ctx) builtin(st *State, b *ssa.Builtin, args []Value, call *ssa.CallCom
 			if x == nil {
 				return BVI(0, 64)
 			}
-			return BVI(int64(len(x.Keys)), 64)
+			return BVI(int64(len(c.mapGet(st, x).Keys)), 64)
 		case Pointer:
 			if at, ok := call.Args[0].Type().Underlying().(*types.Pointer); ok {
 				return BVI(at.Elem().Underlying().(*types.Array).Len(), 64)
